@@ -258,12 +258,19 @@ fn wrapper_vs_bare(m: &mut Monitor, cfg: &Config) {
                 continue;
             }
             m.case(&format!("wrap:{}", sc.mc.family), ss.hash(&sc.mc.label()), true);
+            // two associating components: site fractions from a Newton iteration with tolerance 1e-10
+            // that the two objects run independently (measured difference 5.5e-10)
+            let n_assoc = spec.pure.iter().filter(|r| r["model_record"].get("epsilon_k_ab").is_some()).count();
+            // SAFT-VR Mie solves the site fractions iteratively whenever a mixture has an associating
+            // component, starting from values remembered from the model's previous evaluation: two
+            // model objects with different histories agree to the iteration tolerance only (1.8e-9 seen)
+            let iter_assoc = if n_assoc >= 2 || (n_assoc >= 1 && spec.kind == Kind::SaftVRMie && spec.pure.len() > 1) { 1e3 } else { 1.0 };
             let sig = format!("enum wrapper=bare|{}", sc.mc.family);
             macro_rules! bare {
                 ($eos:expr) => {{
                     let e = Arc::new($eos);
                     if let Ok(b) = State::new_nvt(&e, ss.temperature(), ss.volume(), &ss.moles()) {
-                        compare(m, "enum wrapper=bare model", &sig, case, &w, &b, sa, 1e-11 * (0.1 / ss.eta_frac).max(1.0), &info);
+                        compare(m, "enum wrapper=bare model", &sig, case, &w, &b, sa, 1e-11 * (0.1 / ss.eta_frac).max(1.0) * iter_assoc, &info);
                         let md = (e.compute_max_density(&arr1(&ss.x)) - sc.mc.eos.compute_max_density(&arr1(&ss.x))).abs();
                         m.check("enum wrapper=bare model", &sig, case, md, 1e-15, || json!({"observable": "max_density", "info": info}));
                     }
@@ -297,7 +304,7 @@ fn wrapper_vs_bare(m: &mut Monitor, cfg: &Config) {
             let mut rng = Rng::derive(cfg.seed, "c08-ig", case);
             let e2: Arc<Eos> = Arc::new(EquationOfState::new(joback_for(sc.mc.n, &mut rng), sc.mc.eos.clone()));
             if let Ok(b) = State::new_nvt(&e2, ss.temperature(), ss.volume(), &ss.moles()) {
-                compare(m, "eos wrapper=bare model", &format!("eos wrapper=bare|{}", sc.mc.family), case, &w, &b, sa, 1e-11 * (0.1 / ss.eta_frac).max(1.0), &info);
+                compare(m, "eos wrapper=bare model", &format!("eos wrapper=bare|{}", sc.mc.family), case, &w, &b, sa, 1e-11 * (0.1 / ss.eta_frac).max(1.0) * iter_assoc, &info);
             }
         }
     });
